@@ -625,6 +625,15 @@ class World:
         if spec.get("as_list"):
             rm.pulled = -1  # not observable
             return list(elems)
+        if spec.get("as_cursor"):
+            class Cursor:
+                """An iterable that is not its own iterator: asking it for an iterator is observable (and must not happen for a rejected request)."""
+
+                def __iter__(self_inner) -> Any:
+                    rm.iter_calls += 1
+                    world.ev(f"iter() on the iterable of r{rm.rid}")
+                    return gen()
+            return Cursor()
         return gen()
 
 
